@@ -148,7 +148,21 @@ func (c *authCtx) mkMethod(m string) ssh.AuthMethod {
 	{
 		kind, arg, _ := strings.Cut(m, ":")
 		switch kind {
+		case "pwcb": // ssh.PasswordCallback; "!" = the prompt function fails
+			pw := arg
+			out = append(out, ssh.PasswordCallback(func() (string, error) {
+				if pw == "!" {
+					return "", errors.New("no password available")
+				}
+				return pw, nil
+			}))
+		case "gss": // GSSAPIWithMICAuthMethod with the harness's two-step mechanism
+			out = append(out, ssh.GSSAPIWithMICAuthMethod(&gssClient{good: arg == "good"}, "host.example"))
 		case "pkcb":
+			if arg == "!" { // ssh.PublicKeysCallback whose function fails
+				out = append(out, ssh.PublicKeysCallback(func() ([]ssh.Signer, error) { return nil, errors.New("agent unavailable") }))
+				break
+			}
 			var lists [][]ssh.Signer
 			for _, l := range strings.Split(arg, "|") {
 				var signers []ssh.Signer
@@ -203,6 +217,51 @@ func (c *authCtx) mkMethod(m string) ssh.AuthMethod {
 	}
 	return out[0]
 }
+
+// ---- a two-step GSS-API mechanism for real sessions (client c1 → server s1 → client c2; MIC = "mic-" + field)
+
+type gssClient struct {
+	good bool
+	step int
+}
+
+func (g *gssClient) InitSecContext(target string, token []byte, deleg bool) ([]byte, bool, error) {
+	g.step++
+	switch {
+	case g.step == 1 && token == nil:
+		return []byte("c1"), true, nil
+	case g.step == 2 && string(token) == "s1":
+		return []byte("c2"), false, nil
+	}
+	return nil, false, errors.New("gss client: unexpected token")
+}
+func (g *gssClient) GetMIC(micField []byte) ([]byte, error) {
+	if g.good {
+		return append([]byte("mic-"), micField...), nil
+	}
+	return []byte("mic-forged"), nil
+}
+func (g *gssClient) DeleteSecContext() error { g.step = 0; return nil } // a fresh context for the next auth call
+
+type gssRealServer struct{ step int }
+
+func (g *gssRealServer) AcceptSecContext(token []byte) ([]byte, string, bool, error) {
+	g.step++
+	switch {
+	case g.step == 1 && string(token) == "c1":
+		return []byte("s1"), "", true, nil
+	case g.step == 2 && string(token) == "c2":
+		return nil, "u@VERIF.REALM", false, nil
+	}
+	return nil, "", false, errors.New("gss server: unexpected token")
+}
+func (g *gssRealServer) VerifyMIC(micField, micToken []byte) error {
+	if string(micToken) == "mic-"+string(micField) {
+		return nil
+	}
+	return errors.New("gss server: bad MIC")
+}
+func (g *gssRealServer) DeleteSecContext() error { g.step = 0; return nil }
 
 // ---- scripted server
 
@@ -492,6 +551,11 @@ func execReal(o hx.Op) string {
 				}
 				return result(i, string(k.Marshal()) == string(authBlob))
 			}
+		case "gssapi-with-mic":
+			c.GSSAPIWithMICConfig = &ssh.GSSAPIWithMICConfig{Server: &gssRealServer{},
+				AllowLogin: func(_ ssh.ConnMetadata, src string) (*ssh.Permissions, error) {
+					return result(i, src == "u@VERIF.REALM")
+				}}
 		case "keyboard-interactive":
 			c.KeyboardInteractiveCallback = func(_ ssh.ConnMetadata, ch ssh.KeyboardInteractiveChallenge) (*ssh.Permissions, error) {
 				ans, err := ch("n", "i", []string{"q: "}, []bool{true})
@@ -505,7 +569,11 @@ func execReal(o hx.Op) string {
 	}
 	first := stage(0)
 	scfg := &ssh.ServerConfig{PasswordCallback: first.PasswordCallback, PublicKeyCallback: first.PublicKeyCallback,
-		KeyboardInteractiveCallback: first.KeyboardInteractiveCallback, PublicKeyAuthAlgorithms: o.List("algs")}
+		KeyboardInteractiveCallback: first.KeyboardInteractiveCallback, GSSAPIWithMICConfig: first.GSSAPIWithMICConfig,
+		PublicKeyAuthAlgorithms: o.List("algs")}
+	if o.Str("ban") == "1" {
+		scfg.BannerCallback = func(ssh.ConnMetadata) string { return "real banner" }
+	}
 	hostKey, err := ssh.NewSignerFromSigner(sauth.Keys[2].CryptoSigner())
 	if err != nil {
 		panic(err)
@@ -545,7 +613,14 @@ func execReal(o hx.Op) string {
 	}()
 	// the client's keyboard-interactive answers / password are in the auth spec: pw:<text>, kbdr:<answer>
 	auth := actx.mkAuth(o.Str("cli"))
-	ccfg := &ssh.ClientConfig{User: "u", Auth: auth, HostKeyCallback: ssh.InsecureIgnoreHostKey(), Timeout: 20 * time.Second}
+	gotBanner := 0
+	ccfg := &ssh.ClientConfig{User: "u", Auth: auth, HostKeyCallback: ssh.InsecureIgnoreHostKey(), Timeout: 20 * time.Second,
+		BannerCallback: func(m string) error {
+			if m == "real banner" {
+				gotBanner = 1
+			}
+			return nil
+		}}
 	conn, err := net.Dial("tcp", ln.Addr().String())
 	if err != nil {
 		return "neterr"
@@ -567,7 +642,7 @@ func execReal(o hx.Op) string {
 		conn.Close()
 	}
 	sres := <-srvDone
-	return "client=" + cres + " server=" + sres
+	return fmt.Sprintf("client=%s server=%s banner=%d", cres, sres, gotBanner)
 }
 
 func exec(line string) string {
